@@ -192,7 +192,7 @@ impl StateCheck for C18 {
                             let fmax = f.wdata.iter().map(|w| w.ren.abs().max(w.nren.abs()).max(w.co2.abs()) as f64).fold(1.0, f64::max);
                             let t = subj::tol(mag) + 0.00501 * (c.data.len() as f64 + 2.0) * fmax * 2.0 + 0.000501 * mag;
                             let ratios = crate::cmp::ratios_ok(&a, mag * 10.0) && crate::cmp::ratios_ok(&b, mag * 10.0);
-                            let d = cmp_flat_rt(&result_flat(&a), &result_flat(&b), t, 1e-3, 5e-3, &|p| p.contains("f_match") || (p.starts_with("rer") && !ratios), &|_, x| x);
+                            let d = cmp_flat_rt(&result_flat(&a), &result_flat(&b), t, 1e-3, 2e-2, &|p| p.contains("f_match") || (p.starts_with("rer") && !ratios), &|_, x| x);
                             out.compared += 1;
                             if !d.is_empty() {
                                 let (x, y) = show(&d);
@@ -208,7 +208,7 @@ impl StateCheck for C18 {
         }
         // CLI: --oc / --of files re-run through the CLI reproduce the printed results
         if self.cli && cli::available() && wf_text.is_none() && !c.data.is_empty() {
-            let o1 = cli::run(&cli::sv(&["-c", "@c.csv", "-l", "CANARIAS", "-a", "2.5", "-k", "0.5", "--oc", "@oc.csv", "--of", "@of.csv"]), &[("c.csv", text.as_bytes())], &["oc.csv", "of.csv"], Some(3), Duration::from_secs(10));
+            let o1 = cli::run(&cli::sv(&["-c", "@c.csv", "-l", "CANARIAS", "-a", "2.5", "-k", "0.5", "--red1", "0.125", "1.175", "0.255", "--red2", "0.3335", "0.6665", "0.1115", "--oc", "@oc.csv", "--of", "@of.csv"]), &[("c.csv", text.as_bytes())], &["oc.csv", "of.csv"], Some(3), Duration::from_secs(10));
             if o1.status != Some(0) {
                 out.typed_errors += 1;
                 return;
@@ -221,7 +221,7 @@ impl StateCheck for C18 {
             let o2 = cli::run(&cli::sv(&["-c", "@oc.csv", "-f", "@of.csv"]), &[("oc.csv", &oc), ("of.csv", &of)], &[], Some(4), Duration::from_secs(10));
             out.regime("cli_run");
             out.compared += 1;
-            let cfg = "cteepbd -c F -l CANARIAS -a 2.5 -k 0.5 --oc OC --of OF; cteepbd -c OC -f OF";
+            let cfg = "cteepbd -c F -l CANARIAS -a 2.5 -k 0.5 --red1 0.125 1.175 0.255 --red2 0.3335 0.6665 0.1115 --oc OC --of OF; cteepbd -c OC -f OF";
             if o2.status != Some(0) {
                 out.viol("cli_saved_files_evaluate", &[], cfg, format!("second run exits {:?}: {}", o2.status, o2.stderr.chars().take(200).collect::<String>()), "exit 0");
                 return;
@@ -245,9 +245,15 @@ impl StateCheck for C18 {
                 }
                 (a, b) => out.viol("cli_saved_files_give_same_results", &[], cfg, format!("second run report: {b:?}"), format!("first run report: {a:?}")),
             }
-            // the saved components keep the demands
+            // the saved components keep the demands and the user factors at 3 decimals
             let oc_txt = String::from_utf8_lossy(&oc).to_string();
             if let Ok(c3) = oc_txt.parse::<Components>() {
+                for (k, exp) in [("CTE_RED1", [0.125, 1.175, 0.255]), ("CTE_RED2", [0.3335, 0.6665, 0.1115])] {
+                    let got: Vec<f64> = c3.get_meta(k).map(|v| v.split(',').filter_map(|x| x.trim().parse::<f64>().ok()).collect()).unwrap_or_default();
+                    if got.len() != 3 || (0..3).any(|i| (got[i] - exp[i]).abs() > 0.00051) {
+                        out.viol("saved_user_factors_at_printed_precision", &[], "--oc file", format!("{k} = {got:?}"), format!("{exp:?} at 3 decimals"));
+                    }
+                }
                 for (s, x, y) in [("ACS", &c.needs.ACS, &c3.needs.ACS), ("CAL", &c.needs.CAL, &c3.needs.CAL), ("REF", &c.needs.REF, &c3.needs.REF)] {
                     if x.is_some() != y.is_some() {
                         out.viol("same_demands", &[], "--oc file", format!("{s}: {y:?}"), format!("{x:?}"));
@@ -263,6 +269,12 @@ fn extra_letters() -> Vec<Letter> {
         Letter::one(d("ACS", &k(&[4, 4]))),
         Letter::one(d("CAL", &[133, 377])),
         Letter::one(d("ACS", &[25, 75])),
+        // demands that do not sum to a positive number: nothing demanded, cooling written with negative sign
+        Letter::one(d("REF", &[0, 0])),
+        Letter::one(d("REF", &[-200, -650])),
+        Letter::one(d("CAL", &[0, 300])),
+        Letter::one(u(Some(3), "CAL", "RED1", &[1000, 2050])),
+        Letter::one(u(Some(3), "ACS", "RED2", &[500, 125])),
         Letter::many(vec![a(Some(1), &k(&[1, 1])), o(1, "ACS", &k(&[1, 1])), o(1, "CAL", &k(&[3, 1]))]),
         Letter::one(a(Some(2), &[50, 25])),
         Letter::one(o(9, "REF", &[-300, -150])),
